@@ -19,7 +19,8 @@ RULE = ("kernel-shaped inputs drawn from the theorem's domain and printed by the
         "disk, isabs/isfile/access(X_OK) answered separately by the file system); (comm, argv) pairs "
         "around the 15-byte boundary (ASCII, multi-byte, truncated inside a character); zombies (every pool name cut at 15 and 14 bytes: name(), cmdline(), exe(), cwd()); processes being torn down (stat absent "
         "with or without the directory, probe refused); histories (cmdline(), the caller edits the returned list in place, cmdline(), name(), "
-        "exe() again, inside and outside oneshot()); a malformed stream (raw cmdline/environ "
+        "exe() again, inside and outside oneshot()); arbitrary bytes as the cmdline file against the documented rule and arbitrary environment blocks against "
+        "the total specification; code-point lists for the encoder; a malformed stream (raw cmdline/environ "
         "bytes, ENOENT/ESRCH/EACCES on files and links, vanished /proc entries, zombies) compared with the model only; raw byte "
         "strings for the UTF-8/surrogateescape decoder. Exhaustive: all argv of <=3 args over {'', 'a', ' ', 'a b', 'a '} and all "
         "titles of <=3 words over {'', 'a', 'b'} x 3 terminators. Non-trivial = non-empty input; distinct = canonical case hash.")
@@ -830,7 +831,10 @@ MANIFEST = {
             "linked/unlinked target with or without NUL garbage, '' for a withheld link of a live process, exe() falls back to "
             "cmdline()[0] iff it is absolute AND a regular file AND executable (directories, plain files, dangling and relative paths "
             "refused; AccessDenied kept when the link read was denied and the fallback does not apply) and answers a second call from its cache whatever the kernel then says; name() is the kernel "
-            "name extended from cmdline()[0] at 15 bytes, whatever bytes it contains. All of this is proved for the code as it is now, "
+            "name extended from cmdline()[0] at 15 bytes, whatever bytes it contains. Total statements: for EVERY byte string cmdline() equals the documented "
+            "separator rule and environ() never fails and returns the last-entry dictionary of the block read as NUL-terminated entries; "
+            "one decision table for a link that is not given (live / zombie / stat absent / probe refused); zombie and caller-edited-list "
+            "histories; the fs-encoding round trip fsencode(decode(b)) = b that name() relies on. All of this is proved for the code as it is now, "
             "without exclusions. The two statements this check first refuted (CR/CRLF translated to LF by the text-mode read of "
             "cmdline/environ; 15-byte non-ASCII names not extended; both repaired in /repo, 46827e5 and 76627f6) are kept as refuted "
             "theorems about the old configuration and their inputs are replayed from the corpus on every run. "
